@@ -83,9 +83,25 @@ Theorem C05_every_schedule_all_released :
   all_over s = true -> l < sc_nlocks sc -> w_raw (b_w s) l = raw_free.
 Proof. exact WpMain.every_schedule_all_released. Qed.
 
+
+(* interleaved model, every schedule: a thread about to release a lock holds it, in the mode of the release — happylock never
+   issues a release for a lock the calling thread does not hold *)
+Theorem C05_every_schedule_release_by_holder :
+  forall b sched t k l, WpMain.wfB b = true ->
+  let sc := bs_sc b in
+  let s := fst (run_sched (bs_wp b) (sc_env sc) (sc_nlocks sc) (binit b) sched) in
+  parked (get_thr (b_thr s) t) = Some (ORaw k l) ->
+  match k with
+  | OUnlock => writer_is (w_raw (b_w s) l) t = true
+  | OUnlockSh => memb t (readers (w_raw (b_w s) l)) = true
+  | _ => True
+  end.
+Proof. exact WpMain.every_schedule_release_held. Qed.
+
 Print Assumptions C05_guard_drop_exact.
 Print Assumptions C05_collection_unlock_exact.
 Print Assumptions C05_every_history.
 Print Assumptions C05_every_history_partial.
 Print Assumptions C05_hold_accounting.
 Print Assumptions C05_every_schedule_all_released.
+Print Assumptions C05_every_schedule_release_by_holder.
